@@ -418,6 +418,146 @@ fn case_cprune(r: &mut Rng, id: usize, out: &mut String) {
     out.push_str(&format!("(case {} cprune {} {} {} {} {} {})\n", id, sx_tree(&f), sx_tree(&g), d0, d1, sx_log(&log), pts));
 }
 
+// x-kprune begin ---------------------------------------------------------------------------------------------------
+/// K = 4 tree over R^n whose decisions hold one or two axis rows (+-x_j <= c): the four edges of a two-row node are the
+/// quadrants of a corner, so below a terminal of the receiver three of them are often infeasible (the node is
+/// forwarded).  `partial_pct`: probability (in 1/100) that a child slot stays empty.
+fn gen_axis_tree4(r: &mut Rng, n: usize, depth: usize, partial_pct: u32, term: &mut dyn FnMut(&mut Rng) -> AffFunc) -> AffTree<4> {
+    fn axis_dec(r: &mut Rng, n: usize) -> (AffFunc, usize) {
+        let rows = 1 + r.below(2);
+        let mut a = Array2::<f64>::zeros((rows, n));
+        let mut b = Array1::<f64>::zeros(rows);
+        for i in 0..rows {
+            a[[i, r.below(n)]] = if r.chance(1, 2) { 1.0 } else { -1.0 };
+            b[i] = r.range(-2, 2) as f64;
+        }
+        (AffFunc::from_mats(a, b), rows)
+    }
+    if depth == 0 {
+        return AffTree::<4>::from_aff(term(r));
+    }
+    let (p, rows) = axis_dec(r, n);
+    let mut t = AffTree::<4>::from_aff(p);
+    let mut frontier = vec![(0usize, rows, 1usize)];
+    while let Some((idx, rows, d)) = frontier.pop() {
+        let nlabels = 1usize << rows;
+        let mut created = 0;
+        for label in 0..nlabels {
+            let last = label + 1 == nlabels;
+            if r.chance(partial_pct, 100) && !(last && created == 0) {
+                continue;
+            }
+            created += 1;
+            if d >= depth || r.chance(1, 3) {
+                t.add_child_node(idx, label, term(r)).unwrap();
+            } else {
+                let (p, rws) = axis_dec(r, n);
+                let c = t.add_child_node(idx, label, p).unwrap();
+                frontier.push((c, rws, d + 1));
+            }
+        }
+    }
+    t
+}
+
+/// closed path polytope of node `i` (row k of a predicate holds iff bit k of the label is set)
+fn path_rows4(t: &AffTree<4>, i: usize) -> Vec<(Array1<f64>, f64)> {
+    let mut rows = Vec::new();
+    for (nd, label) in t.tree.path_to_node(i).unwrap() {
+        let a = &t.tree.node_value(nd).unwrap().aff;
+        for k in 0..a.bias.len() {
+            if (label >> k) & 1 == 1 {
+                rows.push((a.mat.row(k).to_owned(), a.bias[k]));
+            } else {
+                rows.push((a.mat.row(k).mapv(|v| -v), -a.bias[k]));
+            }
+        }
+    }
+    rows
+}
+
+/// cached states on the terminals of a K = 4 receiver (infeasible_elimination is binary only, so they are planted):
+/// FeasibleWitness with points of the terminal's own closed region, Feasible where such a point exists, Infeasible
+/// where the solver itself finds the closed path polytope empty
+fn plant_states4(r: &mut Rng, t: &mut AffTree<4>) {
+    use affinitree::pwl::node::NodeState;
+    let n = t.in_dim();
+    let idxs: Vec<usize> = t.tree.terminal_indices().collect();
+    for i in idxs {
+        if i == t.tree.get_root_idx() || !r.chance(1, 2) {
+            continue;
+        }
+        let rows = path_rows4(t, i);
+        let mut inside = Vec::new();
+        for _ in 0..8 {
+            let x = gen_point(r, n);
+            if rows.iter().all(|(a, b)| a.dot(&x) <= *b) {
+                inside.push(x);
+            }
+        }
+        if !inside.is_empty() {
+            inside.truncate(1 + r.below(2));
+            let st = if r.chance(1, 4) { NodeState::Feasible } else { NodeState::FeasibleWitness(inside) };
+            t.tree.node_value_mut(i).unwrap().state = st;
+        } else if !rows.is_empty() {
+            let mut a = Array2::<f64>::zeros((rows.len(), n));
+            let mut b = Array1::<f64>::zeros(rows.len());
+            for (k, (row, bias)) in rows.iter().enumerate() {
+                a.row_mut(k).assign(row);
+                b[k] = *bias;
+            }
+            if matches!(Polytope::from_mats(a, b).status(), PolytopeStatus::Infeasible) {
+                t.tree.node_value_mut(i).unwrap().state = NodeState::Infeasible;
+            }
+        }
+    }
+}
+
+/// pruned vs unpruned composition of AffTree<4> operands (two-row predicates, labels 0..3; one-row predicates leave the
+/// slots 2, 3 empty); the argument tree is partial quite often: an empty slot must stay undefined, whatever is pruned
+/// around it
+fn case_kcprune(r: &mut Rng, id: usize, out: &mut String) {
+    let targeted = r.chance(1, 2);
+    let n = 1 + r.below(2);
+    let (mut f, g): (AffTree<4>, AffTree<4>) = if targeted {
+        // receiver: axis decisions, identity terminals (the thresholds of g meet the path bounds of f)
+        let mut ident = |_: &mut Rng| AffFunc::identity(n);
+        let fdepth = r.below(3);
+        let fp = if r.chance(1, 2) { 0 } else { 20 };
+        let f = gen_axis_tree4(r, n, fdepth, fp, &mut ident);
+        let k = 1 + r.below(2);
+        let mut term = |r: &mut Rng| gen_aff(r, k, n, 4);
+        let gp = [0, 0, 25, 50][r.below(4)];
+        let gdepth = 1 + r.below(2);
+        (f, gen_axis_tree4(r, n, gdepth, gp, &mut term))
+    } else {
+        let m = 1 + r.below(2);
+        let k = 1 + r.below(2);
+        let cf = TreeCfg { depth: r.below(3), partial_pct: if r.chance(1, 2) { 0 } else { 20 }, early_leaf_pct: 20, maxk: 4, term_pool: 0 };
+        let cg = TreeCfg { depth: 1 + r.below(2), partial_pct: [0, 25, 50][r.below(3)], early_leaf_pct: 20, maxk: 4, term_pool: 0 };
+        (gen_tree::<4>(r, n, m, cf), gen_tree::<4>(r, m, k, cg))
+    };
+    if r.chance(1, 2) {
+        plant_states4(r, &mut f);
+    }
+    let mut h0 = f.clone();
+    let unpruned = catch(AssertUnwindSafe(|| h0.compose::<false, false>(&g)));
+    let mut h1 = f.clone();
+    verif_hook::start(HashMap::new());
+    let pruned = catch(AssertUnwindSafe(|| h1.compose::<true, false>(&g)));
+    let log = verif_hook::stop();
+    let d0 = match unpruned {
+        Ok(()) => sx_tree(&h0),
+        Err(_) => "panic".to_string(),
+    };
+    let (d1, pts) = match pruned {
+        Ok(()) => (sx_tree(&h1), sx_points(r, &h1, 4)),
+        Err(_) => ("panic".to_string(), "(pts )".to_string()),
+    };
+    out.push_str(&format!("(case {} kcprune {} {} {} {} {} {})\n", id, sx_tree(&f), sx_tree(&g), d0, d1, sx_log(&log), pts));
+}
+// x-kprune end -----------------------------------------------------------------------------------------------------
+
 fn fault_of(kind: usize) -> Fault {
     match kind {
         0 => Fault::Error,
@@ -637,7 +777,10 @@ fn main() {
         let mut cr = r.fork();
         match kind.as_str() {
             "c03" => {
-                if id % 3 == 2 {
+                if id % 15 == 14 {
+                    // x-kprune: one pruned composition in five runs on AffTree<4> operands (own case kind)
+                    guard(id, &mut out, |out| case_kcprune(&mut cr, id, out))
+                } else if id % 3 == 2 {
                     guard(id, &mut out, |out| case_cprune(&mut cr, id, out))
                 } else {
                     guard(id, &mut out, |out| case_elim(&mut cr, id, false, out))
